@@ -1,7 +1,10 @@
 (* C16 — Python's csv.reader (default excel dialect: delimiter comma, quotechar double-quote, doublequote,
    no escapechar, skipinitialspace off, non-strict) as the character state machine of Modules/_csv.c,
    fed ONE line as the only element of the iterable (this is how parse_ob_csv_line calls it), and the
-   QUOTE_MINIMAL writer.  Model file: definitions only (proofs in IO/CsvProofs.v). *)
+   writer (QUOTE_MINIMAL, and the general form where any field may be quoted although it need not be:
+   QUOTE_ALL / QUOTE_NONNUMERIC / Excel exports).  The reader's field size limit (csv.field_size_limit(),
+   131072 by default) is part of the model: adding a character to a field that already holds that many
+   raises Error.  Model file: definitions only (proofs in IO/CsvProofs.v). *)
 From Coq Require Import List NArith Bool.
 From Outrank Require Import IO.Str.
 Import ListNotations.
@@ -9,11 +12,17 @@ Open Scope N_scope.
 
 Inductive st := StartRecord | StartField | InField | InQuoted | QuoteInQuoted | EatCRNL | Err.
 
-Record pst := mk { state : st; pend : list ch (* reversed *); acc : list (list ch) (* reversed *) }.
+Definition field_limit : N := 131072.
 
-Definition save (s : pst) (next : st) : pst := mk next [] (frev (pend s) :: acc s).
-Definition add (s : pst) (c : ch) (next : st) : pst := mk next (c :: pend s) (acc s).
-Definition goto (s : pst) (next : st) : pst := mk next (pend s) (acc s).
+(* flen = number of characters in the pending field (field_len of the C reader) *)
+Record pst := mk { state : st; pend : list ch (* reversed *); acc : list (list ch) (* reversed *); flen : N }.
+
+Definition save (s : pst) (next : st) : pst := mk next [] (frev (pend s) :: acc s) 0.
+(* parse_add_char: if (field_len >= field_limit) -> Error, field larger than field limit *)
+Definition add (s : pst) (c : ch) (next : st) : pst :=
+  if field_limit <=? flen s then mk Err (pend s) (acc s) (flen s)
+  else mk next (c :: pend s) (acc s) (flen s + 1).
+Definition goto (s : pst) (next : st) : pst := mk next (pend s) (acc s) (flen s).
 
 Definition start_field (s : pst) (c : option ch) : pst :=
   match c with
@@ -55,7 +64,7 @@ Definition step (s : pst) (c : option ch) : pst :=
   end.
 
 Definition run (s : pst) (l : list ch) : pst := fold_left (fun s c => step s (Some c)) l s.
-Definition init : pst := mk StartRecord [] [].
+Definition init : pst := mk StartRecord [] [] 0.
 
 (* list(csv.reader([line])).pop() : None = csv.Error.  When the only line ends inside a quoted field
    the iterator runs out and the pending field is flushed. *)
@@ -68,20 +77,25 @@ Definition parse (line : list ch) : option (list (list ch)) :=
   | _ => Some (frev (match pend s with [] => acc s | _ => frev (pend s) :: acc s end))
   end.
 
-(* writer, QUOTE_MINIMAL (csv.writer(f).writerow(fields) without the line terminator) *)
+(* writer.  A field MUST be quoted when it contains a comma, a quote or a line break (QUOTE_MINIMAL quotes
+   exactly those); it MAY be quoted anyway (flag q): QUOTE_ALL, QUOTE_NONNUMERIC, spreadsheet exports *)
 Definition special (c : ch) := (c =? COMMA) || (c =? QUOTE) || is_nl c.
 Definition needs_quote (f : list ch) := existsb special f.
 Definition esc (f : list ch) : list ch := flat_map (fun c => if c =? QUOTE then [QUOTE; QUOTE] else [c]) f.
-Definition render_field (f : list ch) : list ch := if needs_quote f then QUOTE :: esc f ++ [QUOTE] else f.
-Fixpoint join (fs : list (list ch)) : list ch :=
-  match fs with
+Definition quoted (f : list ch) : list ch := QUOTE :: esc f ++ [QUOTE].
+Definition render_field_q (q : bool) (f : list ch) : list ch := if q || needs_quote f then quoted f else f.
+Definition render_field (f : list ch) : list ch := render_field_q false f.
+Fixpoint join_q (row : list (bool * list ch)) : list ch :=
+  match row with
   | [] => []
-  | [f] => render_field f
-  | f :: rest => render_field f ++ COMMA :: join rest
+  | [(q, f)] => render_field_q q f
+  | (q, f) :: rest => render_field_q q f ++ COMMA :: join_q rest
   end.
-(* a lone empty field is written as two quote characters so that the record is not an empty line *)
-Definition render (fs : list (list ch)) : list ch :=
-  match fs with [[]] => [QUOTE; QUOTE] | _ => join fs end.
+(* a lone empty field is always written as two quote characters so that the record is not an empty line *)
+Definition render_q (row : list (bool * list ch)) : list ch :=
+  match row with [(_, [])] => [QUOTE; QUOTE] | _ => join_q row end.
+(* csv.writer(f).writerow(fields) with the default QUOTE_MINIMAL, without the line terminator *)
+Definition render (fs : list (list ch)) : list ch := render_q (map (fun f => (false, f)) fs).
 
 (* the naive alternative the docstring of parse_ob_csv_line warns about (data can have commas within
    JSON field dumps) *)
